@@ -601,3 +601,73 @@ def only_appended(ctx, rule, fn, what, is_target, allowed=("push",), floor=1):
     n = sum(len(v) for k, v in mu.items() if k in allowed)
     ctx.check(not bad and n >= floor, rule, fn, "only-appended:" + what, "%s is only appended to (%s)" % (what, sorted(mu)),
               "%s is also modified through %s (or never appended to): results can be dropped, reordered or altered after they were produced" % (what, bad or "nothing"), fn_span(body))
+
+
+# ---------------------------------------------------------------- faithful accessors
+
+VIEW_CALLS = ("Deref>::deref", "::as_str", "::as_slice", "AsRef", "::as_ref", "Borrow", "::borrow", "Clone>::clone", "Clone for i64>::clone",
+              "Index<std::ops::RangeFull>>::index", "::as_path", "::as_os_str", "Option::as_deref", "Option::as_ref", "::as_deref")
+
+
+def carried_unchanged(t, leaf, extra_views=()):
+    """t reaches a subterm satisfying leaf(.) through references, views (deref/as_str/as_slice/..) and re-wrapping of an Option's
+    payload, and nothing else: no cast, arithmetic or other call sits between the result and the stored value."""
+    t = strip_refs(t)
+    for _ in range(12):
+        if leaf(t):
+            return True
+        if is_call(t, *(VIEW_CALLS + tuple(extra_views))) and call_args(t):
+            t = strip_refs(call_args(t)[0])
+            continue
+        if isinstance(t, tuple) and t and t[0] == "deref":
+            t = strip_refs(t[1])
+            continue
+        sm = unwrap_some(t)
+        if sm is not None:
+            t = strip_refs(sm)
+            continue
+        if isinstance(t, tuple) and t and t[0] == "field" and t[2] == 0 and isinstance(t[1], tuple) and t[1][0] == "downcast" and t[1][2] == "Some":
+            t = strip_refs(t[1][1])
+            continue
+        return False
+    return False
+
+
+def accessor_faithful(ctx, rule, fn, field, mode="field", key_param=2):
+    """A public accessor through which a property is observed hands back what is stored, nothing else:
+    mode 'field'  : returns self.<field> through references / views / Option re-wrapping only;
+    mode 'values' : returns self.<field>.values().collect() (every stored entry, in map order);
+    mode 'get'    : returns self.<field>.get(<its argument>)."""
+    ps = ctx.paths(fn)
+    body = ctx.body(fn)
+    if not ps:
+        return
+
+    def is_field(t):
+        return isinstance(t, tuple) and t and t[0] == "field" and t[3] == field and strip_refs(t[1]) in (("param", 1), ("deref", ("param", 1)))
+    rets = ret_paths(ps)
+    ok = bool(rets)
+    why = "no returning path"
+    for p in rets:
+        t = p.end[1]
+        if is_none(t):
+            # only because the stored Option is None
+            if not any(c.term[0] == "discr" and is_field(strip_refs(c.term[1])) and c.fact == ("eq", 0) for c in p.conds()):
+                ok, why = False, "returns None although self.%s may hold a value" % field
+            continue
+        if mode == "field":
+            good = carried_unchanged(t, is_field)
+        elif mode == "values":
+            tt = strip_refs(t)
+            good = is_call(tt, "::collect") and is_call(strip_refs(call_args(tt)[0]), "::values") and is_field(strip_refs(call_args(strip_refs(call_args(tt)[0]))[0]))
+        elif mode == "get":
+            tt = strip_refs(t)
+            good = is_call(tt, "::get") and is_field(strip_refs(call_args(tt)[0])) and carried_unchanged(call_args(tt)[1], lambda s: s == ("param", key_param))
+        else:
+            good = False
+        if not good:
+            ok, why = False, "returns %s" % term_str(t)[:160]
+    want = {"field": "self.%s" % field, "values": "self.%s.values().collect()" % field, "get": "self.%s.get(arg)" % field}[mode]
+    ctx.check(ok, rule, fn, "returns-%s" % field, "returns %s unchanged" % want,
+              "%s %s; the property is observed through this accessor, which must return %s unchanged" % (fn, why, want), fn_span(body) if body else "")
+
